@@ -560,7 +560,8 @@ def _main(mod, prop, args, t_start):
                 "instrumented_modules": sorted({m for i in fz for m in i.get("instrumented", [])}),
                 "fallbacks": [i["fallback"] for i in fz if "fallback" in i][:1],
             }
-        floor = max(2, int(part.min_nontrivial.get(tier, 2) * min(1.0, args.scale)))
+        # smoke runs (--scale < 0.1) give each shard only Hypothesis' simplest examples: the vacuity floor is then 1
+        floor = max(2, int(part.min_nontrivial.get(tier, 2) * min(1.0, args.scale))) if args.scale >= 0.1 else 1
         if len(st.nontrivial) < floor and not st.budget_exhausted:
             floor_problems.append(
                 f"part {part.name}: only {len(st.nontrivial)} non-trivial cases (< {floor}); generator is broken"
